@@ -229,7 +229,7 @@ fn apply_edit(m: &mut Beatmap, r: &mut Rng) -> Edit {
             set_val!(m, v, custom_combo_colors, "custom_combo_colors")
         }
         31 => {
-            let names = ["SliderBorder", "SliderTrackOverride", "My Colour", "x=y", "Cömbo", "combo1", "[Colours]", "上", "a,b", "1"];
+            let names = ["SliderBorder", "SliderTrackOverride", "My Colour", "x=y", "Cömbo", "combo1", "[Colours]", "上", "a,b", "1", "_SliderTrackOverride", "_", "-dash", "#hash", "0", "[General] border", "osu file format v5", "Title"];
             let n = r.below(5);
             let mut v: Vec<CustomColor> = Vec::new();
             for _ in 0..n {
